@@ -745,6 +745,14 @@ class Search(common.Suite):
             if case["default_kind"] == "readonly":
                 d.flags.writeable = False      # "any default array": a view the caller may not write to
         before = None if d is None else [int(x) for x in d]
+        # another frame on the very same coordinates (same cell, same cutoff) but with the species in another order has just
+        # been searched: the answer for THIS frame is about this frame's species
+        try:
+            decoy = atoms.copy()
+            decoy.numbers = atoms.numbers[::-1].copy()
+            search_molecules(decoy, self.py_cutoff(case), required_size=req)
+        except Exception:  # noqa: BLE001  (what the decoy does is not the subject)
+            pass
         try:
             out = search_molecules(atoms, self.py_cutoff(case), required_size=req, default_array=d)
         except IndexError as e:
